@@ -182,7 +182,7 @@ def check(tier: str, seed: int, t0: float, build: core.BuildStatus) -> int:
                     if len(samples) < 3:
                         samples.append({"kind": "fragment", "backend": be, "query": src, "events": len(evs), "program_lines": len(c.qlines)})
         # ---------------- fragment F1: event filter, Select / SelectMany (whole queries) ----------------
-        for be in ("atlas", "cms_aod"):
+        for be in ("atlas", "cms_aod", "cms_miniaod"):
             uni = qgen.Universe(be)
             idiom, tree, fill, _ = fraggen.BACKENDS[be]
             for _ in range(n_frag):
@@ -200,7 +200,9 @@ def check(tier: str, seed: int, t0: float, build: core.BuildStatus) -> int:
                 fraggen.fill_throw_lines(sx, c.qlines)
                 r = model.call("c01.fragq", [idiom, tree, fill, sx, n0])
                 members = [ln.strip() for ln in c.pkg["slots"]["class_decl"]]
-                same = r[0] == "ok" and r[1] == c.qlines and r[2] == members and r[3] == [f"{a}={b}" for a, b in c.prog[2]]
+                token_inits = [ln.strip() for ln in c.pkg["slots"]["book_code"] if "consumes<" in ln]
+                same = (r[0] == "ok" and r[1] == c.qlines and r[2] == members and r[3] == [f"{a}={b}" for a, b in c.prog[2]]
+                        and r[4] == token_inits)
                 distinct.add((be, src))
                 evs = frag_events(rng, uni, uses, n_events)
                 diffs, unsup = semrun.differential(model, c, uni, evs)
@@ -224,6 +226,7 @@ def check(tier: str, seed: int, t0: float, build: core.BuildStatus) -> int:
                     oc.correspondence_breaks.append({"backend": be, "query": src,
                                                      "model_lines": r[1] if r[0] == "ok" else r, "emitted_lines": c.qlines,
                                                      "model_members": r[2] if r[0] == "ok" else None, "emitted_members": members,
+                                                     "model_token_inits": r[4] if r[0] == "ok" else None, "emitted_token_inits": token_inits,
                                                      "reference_mismatch": ref_bad, "unsupported": unsup})
                 else:
                     oc.traces_validated_against_impl += 1
